@@ -450,3 +450,59 @@ def zero_grad_outcome(model, qualname):
     other = [k for k, v, st in outs[0].stores]
     flags = [p.name for p in params if p.flag_writes]
     return got == want and not other and not flags, 'zero_() calls %s%s%s' % (got, ', other writes %s' % other if other else '', ', requires_grad written on %s' % flags if flags else '')
+
+
+def check_optimizer_ctor(model, R, P_):
+    """the constructors of the optimizers evaluated on a parameter list with trainable and frozen members and symbolic hyper-parameters:
+       - self.parameters holds exactly the given objects, in order (the trainable / frozen decision is taken on every step, not once at construction)
+       - every per-parameter state list has one slot per given parameter
+       - every hyper-parameter is stored as given: no constructor path replaces a legal value (0, False) by a default
+       - the non-raising outcome does not depend on the hyper-parameters"""
+    R.rule(P_ + '.CTOR', 'optimizer constructors keep the parameter list as given (all members, same order, same objects), size every state list to it and store every hyper-parameter unchanged '
+                        '[constructors evaluated on trainable + frozen parameter objects with symbolic hyper-parameters]', floor=3)
+    w = World(model)
+    base = model.cls('synapgrad.optim.optimizers.Optimizer')
+    for cls in [c for c in model.subclasses('synapgrad.optim.optimizers.Optimizer')]:
+        ini = model.find_method(cls, '__init__')
+        if ini is None:
+            continue
+        params = [PObj('p0', True), PObj('p1', False), PObj('p2', True)]
+        opt = MObj(w, 'opt', cls, initialised=False)
+        hyper = [p for p in ini.pos_params[2:]] + [a.arg for a in ini.node.args.kwonlyargs]
+        args = {ini.pos_params[0]: opt, ini.pos_params[1]: list(params)}
+        for h in hyper:
+            args[h] = A(h)
+        try:
+            outs = w.pe(default_pred=lambda t: None).paths(ini, args, max_paths=256)
+        except Incomplete as u:
+            R.incomplete_at(P_ + '.CTOR', ini.qualname, str(u))
+            continue
+        good = [o for o in outs if o.kind in ('fall', 'return')]
+        bad = []
+        if not good:
+            bad.append('no constructor path completes')
+        # the stored state must be the same on every completing path (validation guards only raise)
+        snaps = []
+        for o in good:
+            # re-run this path alone to read the object it built (the world objects are shared between paths): compare through the recorded stores
+            st = {}
+            for k, v, stmt in o.stores:
+                if k.startswith('self.') or k.startswith('opt.'):
+                    st[k.split('.', 1)[1]] = v
+            snaps.append(st)
+        for st in snaps:
+            got = st.get('parameters')
+            if not (isinstance(got, list) and len(got) == 3 and all(x is y for x, y in zip(got, params))):
+                bad.append('self.parameters = %s' % _names(got))
+            for k, v in st.items():
+                if isinstance(v, list) and k != 'parameters' and len(v) != 3:
+                    bad.append('state list %s has %d slots for 3 parameters' % (k, len(v)))
+            for h in hyper:
+                if not any(isinstance(v, P) and (v == A(h) or v.canon().startswith(h + '[')) for v in st.values()):
+                    bad.append('hyper-parameter %s is not stored as given (stored: %s)' % (h, sorted(k for k in st)))
+        if len(good) > 1:
+            keys = [tuple(sorted((k, v.canon() if isinstance(v, P) else repr(v)) for k, v in st.items() if not isinstance(v, list))) for st in snaps]
+            if len(set(keys)) > 1:
+                bad.append('the stored hyper-parameters depend on a test of their values: %s' % [c for c in good[0].conds][:3])
+        R.ob(P_ + '.CTOR', ini.qualname, '%s(parameters=[trainable, frozen, trainable], %s): %d completing path(s)' % (cls.qualname.split('.')[-1], ', '.join(hyper), len(good)), not bad,
+             'constructor state: %s' % sorted(set(bad))[:3], ini.loc)
